@@ -10,6 +10,6 @@ for d in sorted(os.listdir(root)):
         sigs = []
         for p in caught:
             sigs += (m.get("checks", {}).get(p, {}).get("buckets") or [])[:2]
-        rows.append(f"| {d} | {m.get('property')} | {(m.get('summary') or '')[:150].replace('|','/')} | {(m.get('needs') or '')[:150].replace('|','/')} | {', '.join(caught) or ('out of domain (object reuse)' if m.get('out_of_domain') else 'MISSED')} | {'; '.join(sigs)[:120]} |")
+        rows.append(f"| {d} | {m.get('property')} | {(m.get('summary') or '')[:150].replace('|','/')} | {(m.get('needs') or '')[:150].replace('|','/')} | {', '.join(caught) or (('out of domain: ' + m['out_of_domain'][:60].replace('|','/')) if m.get('out_of_domain') else 'MISSED')} | {'; '.join(sigs)[:120]} |")
 open(os.path.join(root, "INDEX.md"), "w").write("# Seeded changes\n\n| id | property | change | needs | caught by (quick) | signatures |\n|---|---|---|---|---|---|\n" + "\n".join(rows) + "\n")
 print("\n".join(rows))
